@@ -45,7 +45,10 @@ def solve_obligation(ob, timeout_ms, seed=0, use_cvc5=True):
     for p in ob.pc:
         s.add(p)
     s.add(z3.Not(ob.goal))
-    r = s.check()
+    try:
+        r = s.check()
+    except z3.Z3Exception as e:
+        r = z3.unknown
     ob.backend = 'z3-%s' % z3.get_version_string()
     if r == z3.unsat:
         ob.verdict = 'proved'
@@ -174,6 +177,10 @@ class Verifier:
                 ob.time = 0.0
                 continue
             solve_obligation(ob, timeout_ms, seed)
+            if ob.verdict == 'unknown':
+                # solver budget, not a refutation: one more attempt with a larger budget and another seed
+                ob.verdict = None
+                solve_obligation(ob, timeout_ms * 4, seed + 7)
             cache[key] = ob
         res.time = time.time() - t0
         res.inlined = sorted(self.reg.inlined)
